@@ -253,7 +253,7 @@ where
         /*+*/requires self.wf(), a.ix() < self.n(),
         ensures r == self.has_edge(a.ix() as int, b.ix() as int)/*-*/   // [contains_edge_view]
     {
-        /*+*/let r =/*-*/ self.find_edge_pos(a, b).is_ok()/*+*/;
+        /*+*/let r = {/*-*/ self.find_edge_pos(a, b).is_ok() /*+*/};
         proof {
             let lo = self.row@[a.ix() as int] as int; let hi = self.row@[a.ix() + 1] as int;
             if r { } else {
